@@ -596,7 +596,12 @@ fn drive_connection(
                 return false;
             }
             Ok(_) => continue,
-            Err(ref e) if would_block(e) => return false,
+            Err(ref e) if would_block(e) => {
+                // Nothing was written: keep the buffer (a whole message or the rest of one) so
+                // that it is sent first once the client is writable again.
+                wbuf.replace(buf);
+                return false;
+            }
             Err(ref e) if interrupted(e) => {
                 // Nothing was written: keep the buffer so that it is retried first.
                 wbuf.replace(buf);
